@@ -64,6 +64,8 @@ def rule_compare(repo: Repo) -> RuleResult:
     tab = L.table(repo, NE, "COMPARISON_OPERATORS")
     m = repo.module(NE)
     owner = (m.short, "COMPARISON_OPERATORS", str(m.path))
+    A.HELPERS.clear()
+    A.HELPERS.update({name: node for name, (kind, node) in m.defs.items() if kind == "func"})
     for key in ("=", "<=", ">=", "<", ">"):
         r.site(f"{NE}.COMPARISON_OPERATORS[{key!r}]")
         if key not in tab:
@@ -335,5 +337,6 @@ def rule_leaf(repo: Repo) -> RuleResult:
 
 
 def rules(repo: Repo, tier: str) -> List[RuleResult]:
-    return [rule_arith(repo), rule_compare(repo), rule_assign(repo), rule_order(repo), rule_env(repo), rule_tables(repo),
+    from . import c13
+    return [c13.rule_round(repo, "C12.round", ["NumericalExpressionTree._convert_to_pddl", "NumericalExpressionTree._convert_to_mathematical"]), rule_arith(repo), rule_compare(repo), rule_assign(repo), rule_order(repo), rule_env(repo), rule_tables(repo),
             rule_leaf(repo)]
